@@ -104,3 +104,13 @@ package scheduler
 //@   props C14
 //@   precall scheduler\.debugForceElect$ :: nrNodes == len(argAs[[]*node.Node](5)) && nrNodes >= minPoolSize && argIs(6, wantedNodes) && wantedNodes <= nrNodes && minPoolSize >= 0
 //@   note the election for a role proceeds only if the candidate list AFTER per-entity de-duplication (the nodes that can actually be elected together) has at least MinPoolSize entries and at least as many as the committee needs
+
+// ---- who can be elected at all (C14): the node filter of the election ----
+
+//@ func Application.elect
+//@   props C14
+//@   requires app != nil && ctx != nil
+//@   assume-pre scheduler\.(electValidators|distributeRewards)$
+//@   loop 1 invariant forall j int :: 0 <= j && j < len(nodes) ==> nodes[j] != nil && nodes[j].Expiration >= epoch
+//@   precall scheduler\.electValidators$ :: argIs(5, nodes) && (forall j int :: 0 <= j && j < len(nodes) ==> nodes[j] != nil && nodes[j].Expiration >= epoch)
+//@   note only nodes whose descriptor has not expired at the election epoch are handed to the validator election (a second invariant over the committee candidates - unexpired and not frozen - is provable but takes about 50 s together with this one, so it is not part of the check; frozenness is decided on a status object the validator candidate list does not keep)
